@@ -18,6 +18,7 @@ CONSTANTS Sizes,      \* initial sizes; -1 = the file does not exist
           WCounts,    \* write counts
           SOffs,      \* seek offsets
           VBufs,      \* setvbuf modes
+          VSizes,     \* setvbuf sizes (0 = omitted)
           Extra,      \* names of the argument-less operations in the alphabet
           MaxHist, Naive, Gen
 
@@ -33,7 +34,7 @@ Ops == {Op("open", m, 0) : m \in Modes}
        \cup {Op("read", "", n) : n \in RCounts}
        \cup {Op("write", "", n) : n \in WCounts}
        \cup {Op("seek", w, k) : w \in {"set", "cur", "end"}, k \in SOffs}
-       \cup {Op("setvbuf", v, 0) : v \in VBufs}
+       \cup {Op("setvbuf", v, k) : v \in VBufs, k \in VSizes}
        \cup {Op("seek1", w, 0) : w \in IF "seek1" \in Extra THEN {"set", "cur", "end"} ELSE {}}
        \cup {o \in {Op("seek0", "", 0), Op("getiter", "", 0), Op("calliter", "", 0),
                     Op("lines", "", 2), Op("readline", "", 0), Op("readall", "", 0), Op("readnum", "", 0),
@@ -138,5 +139,17 @@ MC_LinesLays == {<<"per", 0>>, <<"at", 4095>>, <<"at", 4096>>, <<"crlf", 37>>, <
 MC_None == {}
 MC_AllExtra == {"seek0", "seek1", "getiter", "calliter", "lines", "readline", "readall", "readnum", "flush", "close", "peek"}
 
+(* generation-only filter of the stream-buffer slices: once setvbuf gave a
+   size b, only write sizes around b are exported (b-1, b, b+1, 2b+1, > 4096) *)
+RelSizes(b) == {b - 1, b, b + 1, 2 * b + 1, 5000}
+WriteRel == LET s == hist'[Len(hist')] IN (s.op = "write" /\ st.bsz > 0) => s.n \in RelSizes(st.bsz)
+MC_WbufCounts == {1, 2, 3, 5, 15, 16, 17, 33, 99, 100, 101, 201, 5000}
+MC_WbufSizes == {1, 2, 16, 100}
+
 GenPrint == Gen => PrintT("GEN " \o ToJson([init |-> init, steps |-> hist', final |-> Final(st')]))
+(* guided slices: at most k writes and one setvbuf per exported history *)
+CountOp(h, name) == Len(SelectSeq(h, LAMBDA x : x.op = name))
+Guided(k) == CountOp(hist', "write") <= k /\ CountOp(hist', "setvbuf") <= 1
+GenPrintG1 == Guided(1) /\ WriteRel /\ GenPrint
+GenPrintG2 == Guided(2) /\ WriteRel /\ GenPrint
 =============================================================================
